@@ -5,6 +5,7 @@ package chansim
 import (
 	"bytes"
 	"errors"
+	"github.com/lightningnetwork/lnd/fn/v2"
 
 	"crypto/sha256"
 	"fmt"
@@ -960,5 +961,55 @@ func (s *Sim) checkReestablish(x int, msg *lnwire.ChannelReestablish) error {
 		s.label("reestablish_heights_differ")
 	}
 
+	return nil
+}
+
+// DoAdmin performs one of the channel-record writes that another subsystem of
+// lnd makes through its OWN, never refreshed handle of the channel while the
+// link is using the channel: on a zero-conf channel the funding manager
+// records the confirmation height (MarkConfirmationHeight) and the real short
+// channel id (MarkRealScid) long after the first updates; after the latter
+// lnd refreshes the link's handle from disk (link.UpdateShortChanID ->
+// OpenChannel.Refresh). On any channel the chain watcher, whose handle was
+// loaded at start-up, records the height at which a spend of the funding
+// output was first seen in a block (MarkCloseConfirmationHeight) and clears it
+// when that block is reorged out (ResetCloseConfirmationHeight); the link keeps
+// working meanwhile. Such a write must change only its own field: all
+// reload / agreement oracles keep applying to the state found on disk.
+func (s *Sim) DoAdmin(x int, kind int, v uint32) error {
+	side := s.Sides[x]
+	switch kind {
+	case 0:
+		s.tracef("%s: MarkConfirmationHeight(%d) via stale handle", side.Name, v)
+		if err := side.Stale.MarkConfirmationHeight(v); err != nil {
+			return violationf("%s: MarkConfirmationHeight: %v", side.Name, err)
+		}
+		s.label("admin_conf_height")
+	case 2:
+		s.tracef("%s: MarkCloseConfirmationHeight(%d) via stale handle", side.Name, v)
+		if err := side.Stale.MarkCloseConfirmationHeight(fn.Some(v)); err != nil {
+			return violationf("%s: MarkCloseConfirmationHeight: %v", side.Name, err)
+		}
+		s.label("admin_close_height")
+	case 3:
+		s.tracef("%s: ResetCloseConfirmationHeight via stale handle", side.Name)
+		if err := side.Stale.ResetCloseConfirmationHeight(); err != nil {
+			return violationf("%s: ResetCloseConfirmationHeight: %v", side.Name, err)
+		}
+		s.label("admin_close_height_reset")
+	default:
+		scid := lnwire.NewShortChanIDFromInt(uint64(v)<<40 | 1<<16 | uint64(x))
+		s.tracef("%s: MarkRealScid(%v) via stale handle, link handle refreshed", side.Name, scid)
+		if err := side.Stale.MarkRealScid(scid); err != nil {
+			return violationf("%s: MarkRealScid: %v", side.Name, err)
+		}
+		if err := side.Chan.State().Refresh(); err != nil {
+			return violationf("%s: Refresh after MarkRealScid: %v", side.Name, err)
+		}
+		s.label("admin_real_scid")
+	}
+	if s.M.RevsSent[x] > 0 || len(s.M.Sigs[x]) > 0 {
+		s.label("admin_write_after_first_update")
+	}
 	return nil
 }
